@@ -157,6 +157,8 @@ def rewrites(rng, p, accepted, max_single=8):
                 out.append(("annotate-subset", scopegen.annotate(p, sub)))
         if sites:
             out.append(("annotate-all", scopegen.annotate(p, sites)))
+    for which, n in rng.shuffle(scopegen.chain_sites(p))[:3]:
+        out.append(("wrap-else-if", scopegen.nest_else_if(p, which, rng.range(1, n))))
     if p.get("broken") == "underconstrained":
         # genuinely underconstrained programs stay rejected when the *inferable* type arguments of
         # the surrounding calls are spelled out: verdict only (the diagnostics may move)
